@@ -206,6 +206,12 @@ def catalogue_c11(seed, tier, rng):
     # arithmetic part ways (squares overflow int64 above ~3.04e9; floats lose integers above 2**53)
     big = [({"max_distance": 4000000000}, "md4e9int"), ({"max_distance": 4e9}, "md4e9"),
            ({"max_distance": 2 ** 53 + 1}, "md2p53int"), ({"max_distance": float(2 ** 53)}, "md2p53")]
+    # same shape, dims and chunking as `ti`, other georeferencing and targets
+    tb = c.raster("targets_i4_b", _spec(targets(rs, "i4", 8, 9), 3.0, 0.5, x0=100.0, y0=7.0, desc=True))
+    for op in ("proximity", "allocation", "direction"):
+        for rid in (ti, tb):
+            c.add("proximity", op, [rid], {"max_distance": 4.0}, backend="dask", heavy=True,
+                  chunks={rid: [[4, 4], [3, 3, 3]]}, always=(op == "proximity"))
     pv = big + [({}, "default"), ({"target_values": [1]}, "t1"), ({"target_values": [2, 3]}, "t23"),
           ({"max_distance": 2.0}, "md2"), ({"max_distance": 5}, "md5int"), ({"max_distance": 5.0}, "md5"),
           ({"distance_metric": "MANHATTAN"}, "man"), ({"distance_metric": "MANHATTAN", "max_distance": 3.0, "target_values": [3]}, "man3")]
